@@ -118,3 +118,113 @@ FLOORS = {
  'C13': 1,
  'C16': 5,
 }
+
+
+# ---------------------------------------------------------------------------------------------------------
+# the converse ratchet: a variable that accumulates across the iterations of a loop keeps accumulating.
+TABLE2 = os.path.join(os.path.dirname(__file__), "tables", "accumulating.json")
+
+
+def self_updates(fn):
+    """names of locals (or `*local` for `&mut` bindings) that are assigned from their own previous value inside a loop"""
+    b = Body(fn)
+    if b.n > 600:
+        return None
+    cyc = _cycle_blocks(b)
+    names = {}
+    for nm, pl in b.dbg:
+        if isinstance(pl, list) and isinstance(pl[0], int) and not pl[1] and nm != "args":
+            names.setdefault(nm, []).append(pl[0])
+    flat = []
+    for nm, locs in names.items():
+        for i, l in enumerate(locs):
+            flat.append((nm if len(locs) == 1 else "%s#%d" % (nm, i), l))
+    out = {}
+    for nm, l in flat:
+        assigned_in_loop = self_dep = False
+        for bl in cyc:
+            for s in b.stmts(bl):
+                if s[0] != "a" or s[1][0] != l:
+                    continue
+                if s[1][1] and any(e != "*" for e in s[1][1]):
+                    continue            # a field / element of the variable, not the variable
+                assigned_in_loop = True
+                deps = set(rvalue_locals(s[2]))
+                more = set(deps)
+                for _ in range(3):
+                    nxt = set()
+                    for t in more:
+                        if t == l:
+                            continue
+                        for d2 in b.defs().get(t, []):
+                            if d2[0] == "s":
+                                nxt |= set(rvalue_locals(d2[3]))
+                    more |= nxt
+                if l in more:
+                    self_dep = True
+        if assigned_in_loop:
+            out[nm] = self_dep
+    return out
+
+
+def build_table2(F, crates):
+    tab = {}
+    for cn in crates:
+        for fn in F.crate(cn).fns:
+            if "mir" not in fn:
+                continue
+            su = self_updates(fn)
+            if su:
+                acc = sorted(k for k, v in su.items() if v)
+                if acc:
+                    tab[flow.norm(fn["id"])] = acc
+    return tab
+
+
+def check2(ck, F, rule, prefixes, floor):
+    tab = json.load(open(TABLE2))
+    ck.rule(rule, "a named variable that is updated from its own previous value inside a loop on the reference tree (`has_nulls |= ..`, `*length += ..`) and is still "
+            "assigned inside a loop is still updated from its own value: `|=` / `+=` turned into `=` keeps only the last iteration's contribution", floor)
+    for fid, vars_ in sorted(tab.items()):
+        if not any(fid.lstrip("<").startswith(p) for p in prefixes):
+            continue
+        fn = F.resolve(fid)
+        if fn is None or "mir" not in fn:
+            continue
+        cur = self_updates(fn)
+        if cur is None:
+            continue
+        for v in vars_:
+            key = "%s#%s" % (fid, v)
+            if v not in cur:
+                ck.ok(rule, key, "no longer assigned in a loop (renamed or restructured): not comparable", nontrivial=False)
+            elif cur[v]:
+                ck.ok(rule, key, "still accumulates", nontrivial=False)
+            else:
+                ck.bad(rule, key, "in %s `%s` is still assigned inside a loop but no longer from its own previous value: what earlier iterations contributed is overwritten"
+                       % (fid, v), "%s:%s" % (fn["file"], fn["line"]))
+
+
+def run2(ck, F, pid):
+    from .influence import SCOPE
+    if pid not in FLOORS2:
+        return
+    check2(ck, F, "%s.accumulation-kept" % pid, SCOPE[pid][0], FLOORS2[pid])
+
+
+FLOORS2 = {
+ 'C01': 16,
+ 'C02': 8,
+ 'C03': 19,
+ 'C04': 0,
+ 'C07': 10,
+ 'C08': 66,
+ 'C09': 11,
+ 'C10': 6,
+ 'C11': 16,
+ 'C12': 2,
+ 'C13': 12,
+ 'C14': 10,
+ 'C16': 16,
+ 'C18': 10,
+}
